@@ -162,6 +162,20 @@ class FrontendRig:
             shutil.rmtree(self.tmp, ignore_errors=True)
 
 
+def lean_publisher():
+    """FrontendPublisher with its real methods and a real PubSubEndpoint, but without the two FastAPI routes that
+    __init__ registers (route/schema construction costs ~1 ms and plays no role in-process). Used where a fresh
+    publisher is needed per history."""
+    from fastapi_websocket_pubsub import PubSubEndpoint
+    from openpectus.aggregator.frontend_publisher import FrontendPublisher
+
+    class LeanFrontendPublisher(FrontendPublisher):
+        def __init__(self):  # noqa - deliberately not calling super().__init__
+            self.on_disconnect_callbacks = []
+            self.pubsub_endpoint = PubSubEndpoint(on_disconnect=[self.on_disconnect])  # type: ignore
+    return LeanFrontendPublisher()
+
+
 def run(coro_fn: Callable[[], Awaitable[Any]]):
     """Runs one coroutine on a private event loop. No timers are ever armed by the rigs, so the loop never sleeps."""
     loop = asyncio.new_event_loop()
